@@ -47,6 +47,7 @@ type Contract struct {
 	Pkg      string // package path
 	Recv     string // receiver type name without * ("" for functions)
 	Name     string
+	Variant  string // "Name/variant": an additional contract for the same function (never used at call sites)
 	Props    []string
 	Requires []*Clause
 	Ensures  []*Clause
@@ -65,7 +66,13 @@ type Contract struct {
 	Line     int
 }
 
-func (c *Contract) Key() string { return contractKey(c.Pkg, c.Recv, c.Name) }
+func (c *Contract) Key() string {
+	k := contractKey(c.Pkg, c.Recv, c.Name)
+	if c.Variant != "" {
+		k += "/" + c.Variant
+	}
+	return k
+}
 func contractKey(pkg, recv, name string) string {
 	if recv != "" {
 		return pkg + "." + recv + "." + name
@@ -117,7 +124,7 @@ type ContractSet struct {
 	Errors    []string
 }
 
-var funcHdr = regexp.MustCompile(`^func\s+(?:\(\s*\*?\s*([A-Za-z_][A-Za-z0-9_]*)\s*\)\s*)?([A-Za-z_][A-Za-z0-9_$]*)\s*(?:\[([^\]]*)\])?\s*$`)
+var funcHdr = regexp.MustCompile(`^func\s+(?:\(\s*\*?\s*([A-Za-z_][A-Za-z0-9_]*)\s*\)\s*)?([A-Za-z_][A-Za-z0-9_$]*(?:/[A-Za-z0-9_]+)?)\s*(?:\[([^\]]*)\])?\s*$`)
 var specHdr = regexp.MustCompile(`^spec\s+([A-Za-z_][A-Za-z0-9_]*)\s*\(([^)]*)\)\s*=\s*(.*)$`)
 var lemmaHdr = regexp.MustCompile(`^lemma\s+([A-Za-z_][A-Za-z0-9_]*)\s*\(([^)]*)\)\s*(?:\[([^\]]*)\])?\s*:\s*(.*)$`)
 
@@ -367,6 +374,10 @@ func (cs *ContractSet) parse(src, file, pkgPath string) {
 				continue
 			}
 			cur = &Contract{Pkg: pkgPath, Recv: m[1], Name: m[2], Loops: map[int]*LoopSpec{}, File: file, Line: rc.line}
+			if k := strings.Index(cur.Name, "/"); k >= 0 {
+				cur.Variant = cur.Name[k+1:]
+				cur.Name = cur.Name[:k]
+			}
 			for _, p := range strings.FieldsFunc(m[3], func(r rune) bool { return r == ',' || r == ' ' }) {
 				cur.Props = append(cur.Props, p)
 			}
